@@ -18,6 +18,7 @@ package metrics
 //@   nopanic
 //@   pure
 //@   ensures result != nil && observedP(result) && observedS(result) == observedS(ctx) [marks-publish-observed-only]
+//@   ensures forall k any :: k != boxed(publishObserved) ==> ctxval(result, k) == ctxval(ctx, k) [every-other-value-of-the-context-kept]
 
 //@ func publishAlreadyObserved
 //@   requires ctx != nil
@@ -30,6 +31,7 @@ package metrics
 //@   nopanic
 //@   pure
 //@   ensures result != nil && observedS(result) && observedP(result) == observedP(ctx) [marks-subscribe-observed-only]
+//@   ensures forall k any :: k != boxed(subscribeObserved) ==> ctxval(result, k) == ctxval(ctx, k) [every-other-value-of-the-context-kept]
 
 //@ func subscribeAlreadyObserved
 //@   requires ctx != nil
@@ -54,8 +56,10 @@ package metrics
 //@   ensures len(messages) > 0 && old(observedP(ctxOf(messages[0]))) ==> calls(OBS) == old(calls(OBS)) [already-observed-by-an-outer-decorator-not-counted-again]
 //@   ensures len(messages) > 0 && !old(observedP(ctxOf(messages[0]))) ==> calls(OBS) == old(calls(OBS)) + 1 [counted-exactly-once]
 //@   assert @call:m.pub.Publish#2: forall j int :: 0 <= j && j < len(messages) ==> observedP(ctxOf(messages[j])) [every-message-marked-before-the-inner-publisher-sees-it]
+//@   assert @call:m.pub.Publish#2: forall j int, k any :: 0 <= j && j < len(messages) && k != boxed(publishObserved) ==> ctxval(ctxOf(messages[j]), k) == ctxval(old(ctxOf(messages[j])), k) [and-each-message-still-carries-every-other-value-of-its-own-context]
 //@   assert @call:HVW: labels[labelSuccess] == ((panicked(P, calls(P) - 1) || err != nil) ? "false" : "true") [success-label-is-true-only-for-a-publish-that-returned-no-error-and-did-not-panic]
 //@   inv loop 1: calls(P) == old(calls(P)) && calls(OBS) == old(calls(OBS)) && labels != nil && fresh(labels) && ctx == old(ctxOf(messages[0])) && (forall j int :: 0 <= j && j <= rangeindex ==> observedP(ctxOf(messages[j]))) && (forall j int :: 0 <= j && j < len(messages) ==> messages[j] != nil) [marking-in-progress]
+//@   inv loop 1: forall j int, k any :: 0 <= j && j < len(messages) && k != boxed(publishObserved) ==> ctxval(ctxOf(messages[j]), k) == ctxval(old(ctxOf(messages[j])), k) [own-context-values-kept-so-far]
 //@   panics-ensures calls(P) == old(calls(P)) + 1 && panicked(P, old(calls(P))) && (len(messages) > 0 && !old(observedP(ctxOf(messages[0]))) ==> calls(OBS) == old(calls(OBS)) + 1) [a-panicking-publisher-is-still-counted]
 //@   modifies field(message.Message.ctx)
 
@@ -89,6 +93,7 @@ package metrics
 //@   nopanic
 //@   ensures msg == nil ==> spawned("(SubscriberPrometheusMetricsDecorator).recordMetrics$1") == old(spawned("(SubscriberPrometheusMetricsDecorator).recordMetrics$1")) [nil-messages-are-ignored]
 //@   ensures msg != nil ==> spawned("(SubscriberPrometheusMetricsDecorator).recordMetrics$1") == old(spawned("(SubscriberPrometheusMetricsDecorator).recordMetrics$1")) + 1 && observedS(ctxOf(msg)) && observedP(ctxOf(msg)) == old(observedP(ctxOf(msg))) [one-counting-goroutine-per-message-and-the-message-is-marked]
+//@   ensures msg != nil ==> (forall k any :: k != boxed(subscribeObserved) ==> ctxval(ctxOf(msg), k) == ctxval(old(ctxOf(msg)), k)) [the-message-keeps-every-other-value-of-its-context]
 //@   modifies msg.ctx
 
 // ---- the builder: one collector per metric and registry (C20: "also when applied twice") ----
